@@ -96,10 +96,25 @@ class Aff(AbstractValue):
         if d.is_const():
             from .interp import _CMPOPS
             return _CMPOPS[op](d.const, 0)
-        # normalise: d <op> 0
-        name = {ast.Eq: 'eq', ast.NotEq: 'eq', ast.Lt: 'lt', ast.GtE: 'lt', ast.Gt: 'gt', ast.LtE: 'gt'}[op]
-        neg = op in (ast.NotEq, ast.GtE, ast.LtE)
-        return Cond(('aff', name, repr(d)), negated=neg)
+        # canonical form over the integers:  e == 0  or  e >= 0  with a positive leading coefficient,
+        # so that  N > 4,  N >= 5,  not N < 5,  N - 1 >= 4,  5 <= N  all decide the same condition
+        if op in (ast.Eq, ast.NotEq):
+            if d.terms[sorted(d.terms)[0]] < 0:
+                d = d.scale(-1)
+            return Cond(('aff', 'eq', repr(d)), negated=op is ast.NotEq)
+        neg = False
+        if op is ast.Gt:
+            e = d.add(Aff({}, 1), -1)
+        elif op is ast.GtE:
+            e = d
+        elif op is ast.Lt:
+            e, neg = d, True
+        else:   # LtE:  d <= 0  ==  not (d - 1 >= 0)
+            e, neg = d.add(Aff({}, 1), -1), True
+        if e.terms[sorted(e.terms)[0]] < 0:
+            # e >= 0  ==  not (-e - 1 >= 0)
+            e, neg = e.scale(-1).add(Aff({}, 1), -1), not neg
+        return Cond(('aff', 'ge0', repr(e)), negated=neg)
 
     def abs_truth(self, interp):
         if self.is_const():
